@@ -703,3 +703,28 @@ CONTROLS += [
 
     def _maybe_parse_class_enum_decl(''')),
 ]
+
+CONTROLS += [
+    pos("flag computed but not handed on (explicit of a class)", ["C01"], ["R1.9"],
+        (P, """        clsdecl = ClassDecl(
+            typename, bases, template, explicit, final, doxygen, self._current_access
+        )""", """        clsdecl = ClassDecl(
+            typename, bases, template, False, final, doxygen, self._current_access
+        )""")),
+    pos("parameter dropped: inline flag of a namespace", ["C01"], ["R1.9"],
+        (P, "        ns = NamespaceDecl(names, inline, doxygen)", "        ns = NamespaceDecl(names, False, doxygen)"),
+        (P, '''        if inline and len(names) > 1:
+            raise CxxParseError("a nested namespace definition cannot be inline")
+''', '')),
+    pos("qualifier store dropped (ref-qualifier of a method)", ["C01"], ["R1.10"],
+        (P, '''            elif tok_value in ("&", "&&"):
+                method.ref_qualifier = tok_value''', '''            elif tok_value in ("&", "&&"):
+                pass''')),
+    neg("parser: default initialiser removed where every path assigns",
+        (P, '''        base = None
+        values: typing.List[Enumerator] = []
+
+        if tok_type == ":":''', '''        base = None
+
+        if tok_type == ":":''')),
+]
